@@ -407,7 +407,7 @@ pub const P_ALPHA: [f64; 10] = [
     1.0 - 1e-9,
     1.0 - 1.1102230246251565e-16,
 ];
-pub const A_ALPHA: [f64; 6] = [5e-324, 1e-300, 1e-6, 0.1, 0.9, 1.0 - 1.1102230246251565e-16];
+pub const A_ALPHA: [f64; 7] = [0.0, 5e-324, 1e-300, 1e-6, 0.1, 0.9, 1.0 - 1.1102230246251565e-16];
 pub const B_ALPHA: [f64; 7] = [0.0, 1e-300, 0.125, 0.25, 0.5, 0.75, 1.0 - 1.1102230246251565e-16];
 
 #[derive(Clone, Copy, PartialEq, Debug)]
